@@ -5,6 +5,17 @@ use crate::ir::*;
 /// Options of one element written as `#[darling(..)]` attributes. Elements with two or more
 /// options get them stacked over two attributes for every other declaration (decided by a
 /// hash of the option text), so that both spellings occur throughout the corpora.
+/// `map` / `and_then` / `default` accept their path bare or quoted (`map = "path::to::f"` is the
+/// spelling the README documents); every other declaration uses the quoted one. (`with` takes a
+/// path or a closure expression and is always written bare.)
+fn path_opt(name: &str, path: &str, quoted: bool) -> String {
+    if quoted {
+        format!("{name} = \"{path}\"")
+    } else {
+        format!("{name} = {path}")
+    }
+}
+
 fn darling_attrs(opts: &[String], sep: &str) -> String {
     if opts.is_empty() {
         return String::new();
@@ -77,7 +88,7 @@ fn field_attr(prog: &Program, n: usize, i: usize, f: &Field) -> String {
     match f.dflt {
         Dflt::None => {}
         Dflt::Trait => opts.push("default".into()),
-        Dflt::Fn => opts.push(format!("default = fdef_{n}_{i}")),
+        Dflt::Fn => opts.push(path_opt("default", &format!("fdef_{n}_{i}"), (n + i) % 2 == 0)),
     }
     if f.skip {
         opts.push("skip".into());
@@ -93,15 +104,15 @@ fn field_attr(prog: &Program, n: usize, i: usize, f: &Field) -> String {
     }
     match f.with {
         With::None => {}
-        With::Path if f.ty == Ty::OptU32 => opts.push("with = vrt::support::with_opt_u32".into()),
+        With::Path if f.ty == Ty::OptU32 => opts.push(path_opt("with", "vrt::support::with_opt_u32", false)),
         With::Closure if f.ty == Ty::OptU32 => opts.push("with = |m| vrt::support::with_opt_u32(m)".into()),
-        With::Path => opts.push("with = vrt::support::with_u32".into()),
+        With::Path => opts.push(path_opt("with", "vrt::support::with_u32", false)),
         With::Closure => opts.push("with = |m| vrt::support::with_u32(m)".into()),
     }
     match f.tr {
         Tr::None => {}
-        Tr::Map => opts.push("map = vrt::support::map_u32".into()),
-        Tr::AndThen => opts.push("and_then = vrt::support::and_then_u32".into()),
+        Tr::Map => opts.push(path_opt("map", "vrt::support::map_u32", (n + i) % 2 == 0)),
+        Tr::AndThen => opts.push(path_opt("and_then", "vrt::support::and_then_u32", (n + i) % 2 == 0)),
     }
     let _ = prog;
     if opts.is_empty() {
@@ -141,15 +152,15 @@ pub fn print_struct(prog: &Program, n: usize, out: &mut String) {
     match s.dflt {
         Dflt::None => {}
         Dflt::Trait => copts.push("default".into()),
-        Dflt::Fn => copts.push(format!("default = cdef_{n}")),
+        Dflt::Fn => copts.push(path_opt("default", &format!("cdef_{n}"), n % 2 == 0)),
     }
     if s.from_ident {
         copts.push("from_ident".into());
     }
     match s.tr {
         Tr::None => {}
-        Tr::Map => copts.push(format!("map = cmap_{n}")),
-        Tr::AndThen => copts.push(format!("and_then = cand_{n}")),
+        Tr::Map => copts.push(path_opt("map", &format!("cmap_{n}"), n % 2 == 1)),
+        Tr::AndThen => copts.push(path_opt("and_then", &format!("cand_{n}"), n % 2 == 1)),
     }
     match s.allow_unknown {
         None => {}
